@@ -14,6 +14,7 @@ Strings in entries may contain the placeholder @TOP@ (absolute path of the scrat
 
 Item =  ["code", n] | ["blank"] | ["comment"] | ["define", name, value|None] | ["undef", name]
       | ["include", "q"|"a"|"m", spelling] | ["once"] | ["directive", text]
+      | ["raw", [line...]] (verbatim; not understood by the reference model)
       | ["bcomment", n] (block comment of n+2 lines) | ["define", name, value, "ml"] (continued, 2 lines)
       | ["cond", [[kind, expr, [Item...]], ...]]          kind in if ifdef ifndef elif else
 expr (if/elif) = ["def",X] | ["ndef",X] | ["val",X] | ["eq",X,k] | ["gt",X,k]
@@ -68,6 +69,10 @@ def render_items(items, lang, fid, out):
             out.append(("blank", ""))
         elif t == "comment":
             out.append(("comment", "! note" if lang == "f90" else "// note"))
+        elif t == "raw":
+            # verbatim lines (only for engines whose oracle needs no reference model)
+            for text in it[1]:
+                out.append(("dir" if text.lstrip().startswith("#") else "code", text))
         elif t == "bcomment" and lang == "f90":
             for _ in range(it[1] + 2):
                 out.append(("comment", "! block"))
